@@ -145,7 +145,9 @@ pub fn corpus() -> Vec<(String, String)> {
 /// Confirmed front-end crashes whose fixes have all landed (DESIGN §7 fix rows): (id, probe text).  Every
 /// check runs them first, in a child process, as hard regression inputs: a crash is a failing input of the
 /// property, reported with the probe's source.  Nothing is gated.
-pub const GATES: [(&str, &str); 11] = [
+pub const GATES: [(&str, &str); 13] = [
+    ("D76", "fn f(a, a, b = 3) { a + b }\nprintln(f(1))\n"),
+    ("D77", "fn g(x: int) -> int {\n  match { return 5 } { _ -> 1 }\n}\n"),
     ("D45", "let q = 1\ntask {\n  println(q)\n  let r = q + 1\n  r.\n}\n"),
     ("D60", "// a comment line to push offsets up\nfn f(a: string) -> int {\n  let x = 1\n}\nlet q = f(\"s\")\n"),
     ("D53b", "fn count(n) { (n, count(n - 1)) }\n"),
@@ -287,6 +289,185 @@ pub fn arity_texts() -> Vec<(String, String)> {
                 }
             }
         }
+    }
+    v
+}
+
+
+/// ILL-FORMED DECLARATION family: duplicate parameter / field / variant / type-parameter / method names,
+/// crossed with the features that index into declarations (default values, named arguments, `.Variant`
+/// shorthand, patterns) and with calls that have too few / too many / duplicate / unknown named arguments.
+pub fn illformed_decl_texts() -> Vec<(String, String)> {
+    let mut v: Vec<(String, String)> = vec![];
+    let fn_decls = [
+        "fn f(a, a) { a }", "fn f(a, a, b = 3) { a + b }", "fn f(a = 1, a = 2) { a }", "fn f(a, b = 3, b = 4) { a + b }",
+        "fn f(a: int, a: string) -> int { 1 }", "fn f(a: int, a: int, b: int = 3) -> int { a + b }", "fn f(b = 3, a) { a + b }",
+        "fn f(a, b = a) { a + b }", "fn f(a, b = b) { a }", "fn f(a = f(1)) { a }", "fn f(a, a = 1, a = 2, a) { a }",
+        "fn f(_, _) { 1 }", "fn f(a, b = 3) { a + b }\nfn f(a, a) { a }", "let f = (a, a) -> a", "let f = (a: int, a: int) -> a + a",
+    ];
+    let calls = [
+        "f()", "f(1)", "f(1, 2)", "f(1, 2, 3)", "f(1, 2, 3, 4)", "f(1, b = 2)", "f(a = 1)", "f(a = 1, a = 2)", "f(1, a = 2)", "f(b = 1)",
+        "f(1, 2, b = 3, b = 4)", "f(1, c = 3)", "f(b = 2, 1)", "f(a = 1, b = 2, a = 3)",
+    ];
+    for (i, d) in fn_decls.iter().enumerate() {
+        for (j, c) in calls.iter().enumerate() {
+            v.push((format!("illdecl:fn{i}:call{j}"), format!("{d}\nprintln({c})\n")));
+        }
+        v.push((format!("illdecl:fn{i}:value"), format!("{d}\nlet g = f\nprintln(g(1))\n")));
+    }
+    let struct_decls = [
+        "type S = { x: int, x: int }", "type S = { x: int, x: string }", "type S = { x: int, x: int = 2 }", "type S = { x: int = 1, x: int = 2 }",
+        "type S = { x: int, y: int = 2, y: int = 3 }", "type S<T, T> = { x: T, y: T }", "type S<T, T> = { x: T, x: T }", "type S = { x: S }",
+        "type S = { x: int }\ntype S = { y: int }",
+    ];
+    let struct_uses = [
+        "let s = S(1)", "let s = S(1, 2)", "let s = S(1, 2, 3)", "let s = S()", "let s = S(x = 1)", "let s = S(x = 1, x = 2)", "let s = S(1, x = 2)",
+        "let s = S(y = 1)", "let s = S(1, 2)\nprintln(s.x)", "let s = S(1, 2)\nlet S(a, b) = s\nprintln(a)", "let s = S(1, 2)\nlet S(x = a) = s\nprintln(a)",
+        "let s = S(1, 2)\nlet S(x = a, x = b) = s", "let s = S(1, 2)\nmatch s {\n  S(a, b) -> a\n}", "let s = S(1, 2)\nmatch s {\n  S(x = 1, x = 2) -> 1\n  _ -> 2\n}",
+        "let s: S<int, int> = S(1, 2)", "let s: S<int> = S(1, 2)",
+    ];
+    for (i, d) in struct_decls.iter().enumerate() {
+        for (j, u) in struct_uses.iter().enumerate() {
+            v.push((format!("illdecl:struct{i}:use{j}"), format!("{d}\n{u}\n")));
+        }
+    }
+    let enum_decls = [
+        "type E = A | A | B", "type E = A | A(int) | B", "type E = A(int) | A(string)", "type E = V(x: int, x: int) | W", "type E = V(x: int, x: int = 2) | W",
+        "type E = V(x: int, y: int = 1, y: int = 2)", "type E<T, T> = V(T) | W", "type E = V(E)", "type E = A | B\ntype E = C | D", "type E = V(int, x: int) | W",
+    ];
+    let enum_uses = [
+        "let e: E = .A", "let e = E.A", "let e = E.A(1)", "let e: E = .A(1)", "let e = E.V(1, 2)", "let e = E.V(x = 1)", "let e = E.V(x = 1, x = 2)", "let e: E = .V(1)",
+        "let e: E = .V(x = 1, y = 2)", "let e = E.V(1, 2, 3)", "let e = E.W\nmatch e {\n  .A -> 1\n  .A(n) -> n\n  _ -> 0\n}", "let e = E.W\nmatch e {\n  .V(a, b) -> a\n  .W -> 0\n}",
+        "let e = E.W\nmatch e {\n  .V(x = a) -> a\n  .W -> 0\n}", "let e = E.W\nmatch e {\n  .V(x = a, x = b) -> a\n  _ -> 0\n}", "let e = E.W\nmatch e {\n  .A -> 1\n  .B -> 2\n}",
+        "let e: E<int, int> = .V(1)", "fn k(e: E) -> int {\n  match e {\n    .A -> 1\n    .B -> 2\n    .C -> 3\n  }\n}",
+    ];
+    for (i, d) in enum_decls.iter().enumerate() {
+        for (j, u) in enum_uses.iter().enumerate() {
+            v.push((format!("illdecl:enum{i}:use{j}"), format!("{d}\n{u}\n")));
+        }
+    }
+    let iface = [
+        "interface I {\n  fn m(self: Self) -> int\n  fn m(self: Self) -> int\n}\nimplement I for int {\n  fn m(self) -> int { 1 }\n}\nprintln(1.m())",
+        "interface I {\n  fn m(self: Self) -> int\n}\nimplement I for int {\n  fn m(self) -> int { 1 }\n  fn m(self) -> int { 2 }\n}\nprintln(1.m())",
+        "interface I {\n  fn m(self: Self) -> int\n}\nimplement I for int {\n  fn m(self) -> int { 1 }\n}\nimplement I for int {\n  fn m(self) -> int { 2 }\n}\nprintln(1.m())",
+        "interface I {\n  fn m(self: Self, self: Self) -> int\n}\nimplement I for int {\n  fn m(self, self) -> int { 1 }\n}\nprintln(I.m(1, 2))",
+        "interface I {\n  fn m(self: Self, a: int = 3) -> int\n}\nimplement I for int {\n  fn m(self, a, a = 4) -> int { a }\n}\nprintln(1.m())",
+        "interface I {\n  fn m(self: Self) -> int\n}\ninterface I {\n  fn n(self: Self) -> int\n}\nimplement I for int {\n  fn n(self) -> int { 1 }\n}\nprintln(1.n())",
+        "extend int {\n  fn tw(self, self) -> int { self }\n}\nprintln(1.tw(2))",
+        "extend int {\n  fn tw(self, a, a = 2) -> int { a }\n}\nprintln(1.tw(2))\nprintln(1.tw())\nprintln(1.tw(a = 3))",
+        "extend int {\n  fn tw(self) -> int { 1 }\n  fn tw(self) -> int { 2 }\n}\nprintln(1.tw())",
+        "extend int {\n  fn tw(a, b = 2) -> int { a + b }\n}\nprintln(int.tw(1))\nprintln(1.tw(b = 3, b = 4))",
+    ];
+    for (i, t) in iface.iter().enumerate() {
+        v.push((format!("illdecl:iface{i}"), format!("{t}\n")));
+    }
+    v
+}
+
+/// DIVERGING-EXPRESSION family: `return` / `break` / `continue` / blocks ending in them / calls of things that
+/// never return, in every expression position the grammar allows.
+pub fn diverging_texts() -> Vec<(String, String)> {
+    let divs: [(&str, &str, bool); 12] = [
+        ("return", "return 5", false), ("block-return", "{ return 5 }", false), ("block-let-return", "{\n    let q = 1\n    return q\n  }", false),
+        ("bare-return", "{ return }", false), ("if-return", "if x == 0 { return 1 } else { return 2 }", false), ("match-return", "match x { _ -> return 3 }", false),
+        ("panic", "panic(\"no\")", false), ("block-panic", "{ panic(\"no\") }", false), ("never-call", "spin()", false),
+        ("break", "break", true), ("block-break", "{ break }", true), ("block-continue", "{ continue }", true),
+    ];
+    let poss: Vec<(&str, Box<dyn Fn(&str) -> String>)> = vec![
+        ("match-scrutinee", Box::new(|d| format!("match {d} {{ _ -> 1 }}"))),
+        ("match-scrutinee-int", Box::new(|d| format!("match {d} {{\n    0 -> 1\n    n -> n\n  }}"))),
+        ("match-scrutinee-bool", Box::new(|d| format!("match {d} {{\n    true -> 1\n    false -> 2\n  }}"))),
+        ("match-scrutinee-tuple", Box::new(|d| format!("match {d} {{\n    (a, b) -> 1\n  }}"))),
+        ("match-scrutinee-variant", Box::new(|d| format!("match {d} {{\n    .some(w) -> 1\n    .none -> 2\n  }}"))),
+        ("match-scrutinee-empty", Box::new(|d| format!("match {d} {{\n  }}"))),
+        ("match-in-tuple-scrutinee", Box::new(|d| format!("match (1, {d}) {{\n    (a, b) -> a\n  }}"))),
+        ("match-arm", Box::new(|d| format!("match x {{\n    0 -> {d}\n    _ -> 1\n  }}"))),
+        ("if-cond", Box::new(|d| format!("if {d} {{ 1 }} else {{ 2 }}"))),
+        ("if-branch", Box::new(|d| format!("if x == 1 {{ {d} }} else {{ 2 }}"))),
+        ("while-cond", Box::new(|d| format!("while {d} {{\n    println(1)\n  }}"))),
+        ("add-left", Box::new(|d| format!("({d}) + 1"))),
+        ("add-right", Box::new(|d| format!("1 + ({d})"))),
+        ("not", Box::new(|d| format!("not ({d})"))),
+        ("neg", Box::new(|d| format!("-({d})"))),
+        ("and", Box::new(|d| format!("({d}) and true"))),
+        ("concat", Box::new(|d| format!("\"a\" .. ({d}) .. \"b\""))),
+        ("eq-both", Box::new(|d| format!("({d}) == ({d})"))),
+        ("call-arg", Box::new(|d| format!("idf({d})"))),
+        ("call-arg-named", Box::new(|d| format!("idf(v = {d})"))),
+        ("println-arg", Box::new(|d| format!("println({d})"))),
+        ("callee", Box::new(|d| format!("({d})(1)"))),
+        ("index", Box::new(|d| format!("arr[{d}]"))),
+        ("indexed", Box::new(|d| format!("({d})[0]"))),
+        ("array-elem", Box::new(|d| format!("[1, {d}, 3]"))),
+        ("tuple-elem", Box::new(|d| format!("({d}, 1)"))),
+        ("struct-arg", Box::new(|d| format!("Pt({d}, 2)"))),
+        ("variant-arg", Box::new(|d| format!("option.some({d})"))),
+        ("let-rhs", Box::new(|d| format!("let v = {d}\n  v"))),
+        ("let-annotated-rhs", Box::new(|d| format!("let v: int = {d}\n  v"))),
+        ("let-tuple-rhs", Box::new(|d| format!("let (a, b) = {d}\n  a"))),
+        ("assign-rhs", Box::new(|d| format!("var y = 1\n  y = {d}\n  y"))),
+        ("compound-assign-rhs", Box::new(|d| format!("var y = 1\n  y += {d}\n  y"))),
+        ("index-assign", Box::new(|d| format!("arr[{d}] = 1"))),
+        ("for-iterable", Box::new(|d| format!("for i in {d} {{\n    println(i)\n  }}"))),
+        ("unwrap", Box::new(|d| format!("({d})!"))),
+        ("try", Box::new(|d| format!("({d})?"))),
+        ("member-call", Box::new(|d| format!("({d}).len()"))),
+        ("member-field", Box::new(|d| format!("({d}).x"))),
+        ("lambda-body", Box::new(|d| format!("let lam = () -> {d}\n  lam()"))),
+        ("return-operand", Box::new(|d| format!("return {d}"))),
+        ("block-tail", Box::new(|d| format!("{{\n    println(1)\n    {d}\n  }}"))),
+        ("task-body", Box::new(|d| format!("task {{\n    {d}\n  }}"))),
+        ("nested-match", Box::new(|d| format!("match (match {d} {{ _ -> 1 }}) {{ _ -> 2 }}"))),
+    ];
+    let pre = "type Pt = { x: int, y: int }\nfn idf(v: int) -> int { v }\nfn spin() {\n  while true {\n  }\n}\nlet arr = [1, 2, 3]\n";
+    let mut v: Vec<(String, String)> = vec![];
+    for (dn, d, needs_loop) in divs {
+        for (pn, p) in &poss {
+            let e = p(d);
+            let body = if needs_loop { format!("while x < 9 {{\n  {e}\n  }}\n  1") } else { format!("{e}\n  1") };
+            v.push((format!("diverge:{dn}:{pn}:fn"), format!("{pre}fn g(x: int) -> int {{\n  {body}\n}}\nprintln(g(1))\n")));
+            // as the tail (result) expression of the function, no declared return type
+            if !needs_loop {
+                v.push((format!("diverge:{dn}:{pn}:tail"), format!("{pre}fn g(x) {{\n  {e}\n}}\n")));
+            }
+            // at top level (return / break outside of a function or loop)
+            v.push((format!("diverge:{dn}:{pn}:top"), format!("{pre}let x = 1\n{e}\n")));
+        }
+        v.push((format!("diverge:{dn}:default-arg"), format!("{pre}fn k(x: int, a = {d}) -> int {{ a }}\nprintln(k(1))\n")));
+        v.push((format!("diverge:{dn}:field-default"), format!("{pre}type Dd = {{ a: int = {d} }}\nlet x = 1\nlet dd = Dd()\n")));
+    }
+    v
+}
+
+
+/// LITERAL-EDGE family: every prefix (at every char boundary) of short texts made of string / number / comment
+/// literals in all their spellings, and the degenerate spellings themselves (empty triple-quoted literals,
+/// quotes at end of input, escapes cut in the middle).
+pub fn literal_edge_texts() -> Vec<(String, String)> {
+    let bases = [
+        "let s = \"\"\"hello wor\"\"\"\nlet t = 1\n",
+        "let s = \"\"\"\n    hello\n      world\n    \"\"\"\nprintln(s)\n",
+        "let s = \"\"\"first\n  second \\n \\x41 \\q\n\"\"\"\n",
+        "let e = \"\"\"\"\"\"\nlet b = \"\"\"   \"\"\"\nlet c = \"\"\"\t\"\"\"\n",
+        "let q = \"a\\\"b\\\\c\\n\\t\\x41\\x7f\\u\" .. 'sq\\'x' .. \"é日😀\"\n",
+        "let n = 1_000 + 0x1F + 1.5e3 + 2. + .5 + 1__2 + 9223372036854775808 + 1.2.3\n",
+        "/* a /* nested */ b */ let x = 1 // tail\n#!shebang\n/**/ let y = 2 /* open",
+        "println(\"\"\"\"\"\" .. \"\"\"x\"\"\" .. \"\" .. '' .. \"\\\"\")\n",
+    ];
+    let mut v: Vec<(String, String)> = vec![];
+    for (k, b) in bases.iter().enumerate() {
+        for (i, _) in b.char_indices().chain(std::iter::once((b.len(), ' '))) {
+            v.push((format!("litedge:base{k}:prefix"), b[..i].to_string()));
+        }
+    }
+    for (k, t) in ["\"\"\"\"\"\"", "\"\"\"   \"\"\"", "\"\"\"", "\"\"\"\"", "\"\"\"\"\"", "\"\"\"\"\"\"\"", "\"\"\"\n", "\"\"\"\n\"\"\"", "\"\"\" \n \"\"\"",
+        "\"", "'", "\"\\", "'\\", "\"\\x", "\"\\x4", "\"\\u{", "\\", "\\\n", "let s = \"\"\"hello wor", "f(\"\"\"", "\"\"\"\\", "\"\"\"a\\"]
+        .iter()
+        .enumerate()
+    {
+        v.push((format!("litedge:degenerate{k}"), t.to_string()));
+        v.push((format!("litedge:degenerate{k}:in-let"), format!("let s = {t}")));
+        v.push((format!("litedge:degenerate{k}:in-call"), format!("println({t})\nlet z = 1\n")));
     }
     v
 }
